@@ -16,7 +16,8 @@ def gen_inputs(rnd, n):
             (corpus.EVAL_ERROR_PROFILE, corpus.OK_DOCS[0])] + [(p, d) for p, d, _ in fx]
     sm = [(p, d) for p, d in base if len(d) < 20000]
     out = []
-    for prof in corpus.PARSE_ERROR_PROFILES + corpus.GEN_ERROR_PROFILES + corpus.REGO_ERROR_PROFILES + corpus.NON_OBJECT_RESULT_PROFILES + corpus.EMPTY_SHAPE_PROFILES:
+    for prof in corpus.PARSE_ERROR_PROFILES + corpus.GEN_ERROR_PROFILES + corpus.REGO_ERROR_PROFILES + corpus.NON_OBJECT_RESULT_PROFILES + corpus.EMPTY_SHAPE_PROFILES + \
+            corpus.YAML_GRAPH_PROFILES * 3:
         out.append((prof, rnd.choice(corpus.OK_DOCS), "unknown"))
     # a profile whose evaluation fails at run time, and one with 70 quantified constraints, against every kind of document
     for prof in (corpus.EVAL_ERROR_PROFILE, corpus.MANY_QUANTIFIED_PROFILE):
@@ -78,7 +79,20 @@ def run_(tier):
         if i % 4 == 0:
             # the same texts submitted again, back to back, in the same process (a service retrying a request)
             cases.append(dict(cases[-1], chan="none", repeat=3))
-    obs = proto.run_cases("c17", cases)
+    try:
+        obs = proto.run_cases("c17", cases)
+    except vlib.Blocked:
+        raise
+    except vlib.Infra as e:
+        # a crash no recover() can stop (the Go runtime ends the process): that is "a panic" to the caller of a library
+        txt = str(e)
+        if not (("stack overflow" in txt or "goroutine stack exceeds" in txt) and "amf-custom-validator/" in txt):
+            raise
+        V.disagree("an entry point crashes the process (stack overflow inside the validator)", {"harness_stderr": txt[:1500] + "\n[...]\n" + txt[-2500:]})
+        vlib.write_evidence("C17", tier, {"states": mc.distinct + live.distinct, "transitions": mc.generated + live.generated,
+                                          "traces_validated_against_impl": 0, "evaluations": len(cases), "distinct_nontrivial": 0,
+                                          "samples": [txt[-500:]]}, time.time() - t0, violations=len(V.violations))
+        return V.finish()
     # the first call a process ever makes (no warm-up history): one process per case
     first = []
     pool = [(corpus.OK_PROFILE, d, "ok") for d in corpus.NO_NODES_DOCS + ["", " ", "[", "null", "0"]] + \
@@ -108,7 +122,8 @@ def run_(tier):
         "states": mc.distinct + live.distinct + tr.distinct, "transitions": mc.generated + live.generated + tr.generated,
         "traces_validated_against_impl": len(byid),
         "evaluations": len(cases), "distinct_nontrivial": len(outcomes),
-        "rule": "inputs: hand-written class representatives, 1-3 stacked structured mutations of every fixture profile "
+        "rule": "inputs: hand-written class representatives (among them profiles that use YAML anchors, aliases to an "
+                "enclosing node, merge keys, tags and several documents), 1-3 stacked structured mutations of every fixture profile "
                 "(YAML line/token level) and data (JSON tree level), raw bytes; every call under recover() and a 45 s "
                 "watchdog, with and without an event channel; distinct = distinct (entry, number of events seen, outcome)",
         "outcomes": {"%s/ev%d/%s" % k: v for k, v in sorted(outcomes.items())},
